@@ -582,9 +582,10 @@ class RTCRtpReceiver:
 
         except asyncio.CancelledError:
             pass
-
-        self.__log_debug("- RTCP finished")
-        self.__rtcp_exited.set()
+        finally:
+            # we *need* to set __rtcp_exited, otherwise RTCRtpReceiver.stop() will hang
+            self.__log_debug("- RTCP finished")
+            self.__rtcp_exited.set()
 
     async def _send_rtcp(self, packet: AnyRtcpPacket) -> None:
         self.__log_debug("> %s", packet)
